@@ -7,7 +7,7 @@ import time
 import warnings
 from typing import Any
 
-from .. import semfam, semgen, semlean, semrun
+from .. import semfam, semfam2, semgen, semlean, semrun
 from ..common import hx, unhx
 from ..runner import Check
 from ..translate import constraints as tconstraints
@@ -368,12 +368,17 @@ def diff_cause(d: semrun.Diff) -> str:
         v = leaf.get(d.keyword)
         if isinstance(v, int) and not isinstance(v, bool) and abs(v) > 2**53:
             return "big_exclusive_bound_through_float"
+    if leaf.get("sibling_on_ref") and d.keyword in CONSTRAINT_KEYWORDS:
+        return "sibling_keyword_on_ref_member"  # a keyword next to anyOf/oneOf and a `$ref` member of its type
     if d.keyword == "pattern" and "|" in d.path and "," in str(leaf.get("pattern", "")):
         return "comma_in_pattern_in_union"
     if d.keyword in semgen.BOUND_KEYS and leaf.get("type") == "integer":
         v = leaf.get(d.keyword)
         if isinstance(v, float) and v != int(v):
-            return "nonintegral_bound_on_integer"
+            # D10, precisely: the reported bound is the TRUNCATED one, int(v) (any other reported value — a bound moved
+            # the other way, or none at all — is not this finding)
+            if d.keyword == "multipleOf" or (isinstance(d.got, (int, float)) and not isinstance(d.got, bool) and d.got == int(v)):
+                return "nonintegral_bound_on_integer"
     if leaf.get("k") == "object" and leaf.get("type_list_null") and not leaf.get("props") and isinstance(leaf.get("ap"), dict) and d.location == "ap_value":
         return "nullable_map_value"  # the map object itself is the leaf: its value schema is not reported at all
     if d.keyword == "required":
@@ -410,6 +415,9 @@ def _union_sibling_requires_const(doc: Any, name: str) -> bool:
 
 
 def mutation_cause(doc: dict, m: semgen.Mutation) -> str:
+    if m.cause == "nonintegral_bound_on_integer" and m.keyword in semfam2.BOUND4 and not semfam2.accepted_by_truncation(m.leaf, m.keyword, m.value):
+        # D10 explains the acceptance of a value that satisfies the bound cut by int(), and no other
+        return "none"
     if m.keyword == "required":
         psch = semgen.resolve(doc, m.leaf.get("properties", {}).get(m.path[-1], {}))
         if m.cause in ("required_nullable_member", "allOf_required_inherited_member"):
@@ -863,6 +871,115 @@ def campaign_nullable(ck: Check, n: int) -> None:
     camp.wall_s = time.time() - t0
 
 
+def campaign_siblings(ck: Check, n: int) -> None:
+    """validation keywords written NEXT TO anyOf / oneOf (not inside the members): they constrain every member of their
+    type wherever it stands in the list — before or after a `null` member, two or three members — in both routings"""
+    camp = ck.campaign("e2e oracle, family: validation keywords as SIBLINGS of anyOf/oneOf × member order (null first / middle / last / absent) × scalar kind × 2-3 inline members × every place: the value violating only the sibling keyword rejected, the keyword reported")
+    t0 = time.time()
+    rng = ck.rng.fork("fam-siblings")
+    off = rng.below(48)
+    for i in range(n):
+        doc, feats, insts, muts = semfam2.sibling_union_doc(rng.fork(str(i)), off + i)
+        for f in feats:
+            camp.hit(f"feature:{f}")
+        camp.hit("mutation:confirmed_sibling_keyword", len(muts))
+        for inst in insts[:2]:
+            muts = muts + [m for m in semgen.mutations(doc, inst) if m.keyword != "type"]
+        for st in STYLES:
+            for r in ("contype", "field") if i % 3 else ROUTINGS:
+                oracle_doc(ck, camp, doc, st, r, insts, muts)
+    camp.wall_s = time.time() - t0
+
+
+def campaign_siblings_model(ck: Check, n: int) -> None:
+    """the Lean side of the sibling-keyword family (Dcg/Model/Siblings.lean): `distribute` (what the keywords next to a
+    combination MEAN: validJ of the merged members vs jsonschema on the schema as written) and `trSib` (what stage 1
+    BUILDS: vs the member type in the IR of the real parser, 2 styles × 3 routings)"""
+    ca = ck.campaign("sem.valid on (sib …) (Model.Translate.distribute: members merged with the sibling keywords) vs jsonschema on the combination as written")
+    cb = ck.campaign("sem.trsib (Model.Translate.trSib) vs the member type in the IR dump of JsonSchemaParser(...).parse_raw(): combinations with sibling keywords, member orders × kinds, 2 styles × 3 routings")
+    t0 = time.time()
+    rng = ck.rng.fork("fam-siblings-model")
+    off = rng.below(48)
+    reqs, meta = [], []
+    for i in range(n):
+        r = rng.fork(str(i))
+        u, kind, kws, members = semfam2.sibling_union(r, off + i)
+        if i % 4 == 3:
+            # a `$ref` member (taken as it is: "TODO: support partial ref") and a member with a keyword of its own
+            u = {**u, ("anyOf" if "anyOf" in u else "oneOf"): [*members, {"$ref": "#/definitions/Zed"}]}
+        doc = {"title": "Model", "type": "object", "properties": {"m": u}, "required": ["m"]}
+        if i % 4 == 3:
+            doc["definitions"] = {"Zed": {"type": "object", "properties": {"z": {"type": "boolean"}}, "required": ["z"]}}
+        try:
+            bsx, usx = semlean.sib_union_sx(u)
+            dsx = semlean.defs_sx(doc)
+        except semlean.Unmodelled as e:
+            ca.unmodelled += 1
+            ca.hit(f"unmodelled:{str(e)[:40]}")
+            continue
+        good, bad = semfam2._values_for(kind, kws)
+        vals = [*good, *(x for _k, x in bad), None, True, "zq", 7, 2.5, {"z": True}, []]
+        insts = [{"m": x} for x in vals]
+        ssx = f"(object (({semlean.hx('m')} (sib {bsx} {usx}))) ({semlean.hx('m')}) absent)"
+        try:
+            rsx = semlean.regex_sx(doc, insts)
+            enc = [(semlean.json_sx(x), x) for x in insts]
+        except semlean.Unmodelled:
+            ca.unmodelled += 1
+            continue
+        order = "no_null" if {"type": "null"} not in members else ("null_first" if members[0] == {"type": "null"} else ("null_last" if members[-1] == {"type": "null"} else "null_middle"))
+        for c in (ca, cb):
+            c.hit(f"order:{order}")
+            c.hit(f"kind:{kind}")
+        v = semgen.validator_for(doc)
+        for jx, x in enc:
+            reqs.append(f"sem.valid 8 {rsx} {dsx} {ssx} {jx}")
+            meta.append(("valid", doc, x, v.is_valid(x)))
+        for st in STYLES:
+            for rt in ROUTINGS:
+                reqs.append(f"sem.trsib {st} {rt} {bsx} {usx}")
+                meta.append(("tr", doc, st, rt))
+    replies = ck.driver.run(reqs)
+    for m, rep in zip(meta, replies):
+        if not rep.startswith("ok "):
+            ck.infra_errors.append(f"driver reply {rep!r} for {m[0]}")
+            continue
+        if m[0] == "valid":
+            _, doc, x, lab = m
+            ca.evaluations += 1
+            ca.hit("valid" if lab else "invalid")
+            ca.distinct.add(hash((semgen.canon(doc), semgen.canon(x))))
+            if (rep == "ok true") != lab:
+                ck.disagree(ca, {"doc": doc, "instance": x}, rep == "ok true", lab)
+            elif len(ca.samples) < 2 and not lab:
+                ca.samples.append({"doc": doc, "instance": x, "valid": lab})
+        else:
+            _, doc, st, rt = m
+            cb.evaluations += 1
+            try:
+                ri = semlean.RealIR(doc, st, rt)
+                dm = ri.root_model()
+                real_fields = ri.dump_model(dm)[2]
+                real = next(f[4] for f in real_fields if f[1] == "m")
+            except semlean.Unmodelled as e:
+                cb.unmodelled += 1
+                cb.hit(f"unmodelled:{str(e)[:30]}")
+                continue
+            except Exception as e:  # noqa: BLE001
+                cb.unmodelled += 1
+                cb.hit(f"parser-raised:{type(e).__name__}")
+                continue
+            model = semlean.canon_ty(semlean.parse_sx(rep[3:])[0])
+            cb.hit(f"{st}/{rt}")
+            cb.distinct.add(hash((semgen.canon(doc), st, rt)))
+            if model != real:
+                ck.disagree(cb, {"doc": doc, "style": st, "routing": rt}, model, real)
+            elif len(cb.samples) < 2:
+                cb.samples.append({"doc": doc, "style": st, "routing": rt, "ir": model})
+    for c in (ca, cb):
+        c.wall_s = round((time.time() - t0) / 2, 2)
+
+
 def campaign_lattice(ck: Check, n: int) -> None:
     """`required` next to `allOf` naming INHERITED members, over inheritance lattices (several `$ref` bases, depth
     >= 2, diamonds): the member must be required in the generated class — the missing-member mutation rejected,
@@ -923,6 +1040,10 @@ def search_broken_keyword(ck: Check) -> None:
                 oracle_doc(ck, camp, doc, st, "contype")
             doc, _f, _c = semfam.nullable_doc(rng.fork(f"n{i}"), i)
             oracle_doc(ck, camp, doc, "v2", "contype")
+            # keywords next to anyOf/oneOf (a broken sem.trsib / sem.valid on (sib …) shows there)
+            doc, _f, sinsts, smuts = semfam2.sibling_union_doc(rng.fork(f"s{i}"), i)
+            for st, r in (("v2", "contype"), ("v1", "contype"), ("v2", "field")):
+                oracle_doc(ck, camp, doc, st, r, sinsts, smuts)
             from ..runner import match_finding
 
             if any(match_finding(ck.findings, f.classification) is None for f in ck.failures):
@@ -968,6 +1089,8 @@ def run(ck: Check) -> None:
     campaign_focused(ck)
     campaign_random(ck, 80 if quick else 1200)
     campaign_nullable(ck, 13 if quick else 120)
+    campaign_siblings(ck, 24 if quick else 240)
+    campaign_siblings_model(ck, 48 if quick else 480)
     campaign_inherit(ck, 24 if quick else 300)
     campaign_lattice(ck, 14 if quick else 150)
     ck.search_hooks.append(search_broken_keyword)
